@@ -18,9 +18,11 @@ then replaced by one that does not compile):
 The translation is a typed, purely syntactic compilation of the expression subset documented in rustparse.py:
 `let` chains, struct literals, field access, Option/Rect/Size/Point/Line combinators, `if`/`if let`/`match` with
 tuple / or-patterns, closures passed to `map`/`or_else`/`unwrap_or_else` (early `return`s become nested
-conditionals), `let mut` + assignments inside `if`/`if let` statements (rebinding).  `tree.perform_child_layout(..,
-known_dimensions, ..)` becomes a call of the oracle parameter `measure known_dimensions`; the result is the
-`location`, `size` and `margin` fields of the `Layout { .. }` literal passed to `set_unrounded_layout`.
+conditionals), `let mut` + assignments inside `if`/`if let` statements (rebinding).  The child stage is emitted as
+<k>_known (the statements in front of `tree.perform_child_layout(.., known_dimensions, ..)`: its known_dimensions
+argument), <k>_place (all statements, the size of the layout output being the parameter `measured`; result: the
+`location`, `size` and `margin` fields of the `Layout { .. }` literal passed to `set_unrounded_layout`) and
+<k>_child = <k>_place .. (measure (<k>_known ..)) for an oracle `measure`.
 Types are inferred bottom-up from the declared types of the free names; every method is looked up by (receiver type,
 name, argument types) and anything not in the table is refused."""
 from fractions import Fraction
@@ -365,7 +367,8 @@ class Tr:
             kd, kt = self.e(args[1])
             if kt != ('Size', OF):
                 raise Refuse('perform_child_layout known_dimensions of type %r' % (kt,))
-            return '(measure %s)' % kd, 'LayoutOutput'
+            self.known_arg = kd
+            return 'measured', 'LayoutOutput'
         r, t = self.e(recv)
         n = len(args)
         if t == 'LayoutOutput':
@@ -586,6 +589,11 @@ class Tr:
         return cur
 
     def stmt(self, st, lines):
+        if st[0] == 'coqlet':
+            ps, binds = self.pat(st[1], st[3])
+            lines.append("let %s%s := %s in\n    " % ("'" if st[1][0] != 'pident' else '', ps, st[2]))
+            self.env.update(binds)
+            return
         if st[0] == 'let':
             p, rhs = st[1], st[2]
             if rhs is None:
@@ -1067,6 +1075,36 @@ class Kernel:
         env2['__size0'] = ('(ai_size i)', ('Size', OF))
         env2['__min0'] = ('(ai_min0 i)', ('Size', OF))
         env2['__max0'] = ('(ai_max i)', ('Size', OF))
+        # the statements in front of perform_child_layout compute its known_dimensions argument: <name>_known
+        idx = [k for k, st in enumerate(s2_stmts) if st[0] == 'let' and st[2] and st[2][0] == 'mcall' and st[2][2] == 'perform_child_layout']
+        if len(idx) != 1:
+            raise Refuse('%s: expected exactly one perform_child_layout' % self.name)
+        trk = Tr(env2, self.fns)
+        klines = []
+        curk = trk.lets(s2_stmts[:idx[0]], klines)
+        known, kt = curk.e(s2_stmts[idx[0]][2][3][1])
+        if kt != ('Size', OF):
+            raise Refuse('%s: known_dimensions of type %r' % (self.name, kt))
+        gp = geom_params + list(extra2_params)
+        w(emit_def(self.name + '_known', gp + [('i', '(AbsIn T)')], klines, known, '(Size (option T))'))
+        # the statement after perform_child_layout that fixes the final size: <name>_final_size
+        fidx = [k for k, st in enumerate(s2_stmts) if k > idx[0] and st[0] == 'let' and let_name(st) in ('final_size', 'Size{width,height}')]
+        if not fidx:
+            raise Refuse('%s: final size statement not found' % self.name)
+        fidx = fidx[0]
+        trf = Tr(env2, self.fns)
+        flines = []
+        curf = trf.lets(s2_stmts[:fidx + 1], flines)
+        fpat = s2_stmts[fidx][1]
+        if fpat[0] == 'pident':
+            fres = curf.env[fpat[1]]
+        else:
+            fres = curf.e(('struct', ['Size'], [('width', ('path', ['width'])), ('height', ('path', ['height']))], None))
+        if fres[1] != ('Size', F):
+            raise Refuse('%s: final size of type %r' % (self.name, fres[1]))
+        w(emit_def(self.name + '_final_size', gp + [('i', '(AbsIn T)'), ('measured', '(Size T)')], flines, fres[0], '(Size T)'))
+        call = '(%s_final_size %s i measured)' % (self.name, ' '.join(n for n, _ in gp))
+        s2_stmts = s2_stmts[:fidx] + [('coqlet', fpat, call, ('Size', F))] + s2_stmts[fidx + 1:]
         tr2 = Tr(env2, self.fns)
         lines = []
         cur = tr2.lets(s2_stmts, lines)
@@ -1078,8 +1116,12 @@ class Kernel:
             if t != want:
                 raise Refuse('%s: Layout.%s has type %r' % (self.name, f, t))
             outs.append(r)
-        w(emit_def(self.name + '_child', geom_params + list(extra2_params) + [('i', '(AbsIn T)'), ('measure', '(Size (option T) -> Size T)')],
+        # <name>_place: the whole child stage with the layout output's size as a value; <name>_child feeds it the oracle's answer
+        w(emit_def(self.name + '_place', gp + [('i', '(AbsIn T)'), ('measured', '(Size T)')],
                    lines, '(mkAbsOut %s)' % ' '.join(outs), '(AbsOut T)'))
+        args = ' '.join(n for n, _ in gp)
+        w(emit_def(self.name + '_child', gp + [('i', '(AbsIn T)'), ('measure', '(Size (option T) -> Size T)')], [],
+                   '%s_place %s i (measure (%s_known %s i))' % (self.name, args, self.name, args), '(AbsOut T)'))
 
 
 def loop_body(blk, kind):
